@@ -246,13 +246,18 @@ func c07Bytes15(r *core.Run, ef *errFlow) {
 func c15Reset(r *core.Run) {
 	p := r.Prog
 	fn := p.Func("tds", "PacketQueue", "Reset")
-	want := map[string]bool{"queue": false, "indexPacket": false, "indexData": false, "recvEOM": false}
+	want := map[string]bool{}
+	byObj := map[*types.Var]string{}
+	for _, n := range []string{"queue", "indexPacket", "indexData", "recvEOM"} {
+		want[n] = false
+		byObj[p.Field("tds", "PacketQueue", n)] = n
+	}
 	for _, b := range fn.Blocks {
 		for _, in := range b.Instrs {
 			if st, ok := in.(*ssa.Store); ok {
 				if fa, ok := st.Addr.(*ssa.FieldAddr); ok && fa.X == ssa.Value(fn.Params[0]) {
-					name := core.FieldOfAddr(fa).Name()
-					if _, has := want[name]; has {
+					name := byObj[core.FieldOfAddr(fa)]
+					if _, has := want[name]; has && name != "" {
 						zero := false
 						switch v := st.Val.(type) {
 						case *ssa.Const:
